@@ -4044,8 +4044,15 @@ class Phonopy:
             use_openmp=phonoc.use_openmp(),
         )
         # DynamialMatrix instance transforms force constants in correct
-        # type of numpy array.
-        self._force_constants = self._dynamical_matrix.force_constants
+        # type of numpy array. With frequency_scale_factor, the instance holds
+        # scaled force constants, which must not be stored back: they would be
+        # scaled again at the next call of this method.
+        if self._frequency_scale_factor is None:
+            self._force_constants = self._dynamical_matrix.force_constants
+        elif not isinstance(self._force_constants, np.ndarray):
+            self._force_constants = np.array(
+                self._force_constants, dtype="double", order="C"
+            )
 
         if self._group_velocity is not None:
             self._set_group_velocity()
